@@ -213,4 +213,4 @@ def body(case):
 
 
 def tests(tier):
-    return [TestSpec("reparse", gen_case, body, {"quick": 3000, "thorough": 250000}, tape=2048)]
+    return [TestSpec("reparse", gen_case, body, {"quick": 3000, "thorough": 250000}, tape=2048, fuzz={"thorough": 40000})]
